@@ -16,13 +16,13 @@ TEXT = {
  "C12": {
   "level": "TLC explores the tracker / search-loop specification (GEEvaluation, GEAlgorithms) over every fitness history of small value sets for the loop shapes of the four algorithms, single and multi objective, both directions, and checks BestIsBest, FlagExact and ReturnsBest as invariants; TLC-generated histories are then replayed through the real trackers and real searches and every recorded registration / return is validated by TLC against the same operators.",
   "ref": "DESIGN.md section 4 C12",
-  "note": "integer-valued fitness; individuals identified through a delegating Representation; histories bounded (length 5/7 over 3 values)",
+  "note": "integer-valued fitness plus infinities and magnitudes near 2e9; fitness functions that fail in mid-batch; entry points: the four algorithms, the self-configuring GP variants and geml.simplegp.SimpleGP; individuals identified through a delegating Representation; model histories bounded (length 5/7 over 3 values)",
   "technique": "TLA+ model checking (TLC) of the tracker state machine + replay of TLC-generated histories into the real trackers/searches with trace validation",
  },
  "C13": {
   "level": "TLC checks AtMostOnce / CountHonest on the search-loop specification for all histories and ParallelEqualsSequential on the parallel-evaluator specification for ALL worker schedules (with a completion-order pairing variant that must fail); real searches and direct calls of both evaluators on identical populations are recorded (fitness invocations logged across processes) and validated by TLC: recorded fitness = fitness function on the individual's program, aggregate rule, at most one invocation per individual, counter = invocations, parallel store = sequential store.",
   "ref": "DESIGN.md section 4 C13",
-  "note": "real worker scheduling is perturbed, not controlled; exhaustive schedules are model-level only",
+  "note": "real worker scheduling is perturbed, not controlled; exhaustive schedules are model-level only; fitness functions also return numpy scalars; twin and lazily declared problems share individuals",
   "technique": "TLA+ model checking (TLC) of evaluator/tracker + all-schedules model of the pool + trace validation of recorded evaluator calls",
  },
  "C14": {
@@ -40,13 +40,13 @@ TEXT = {
  "C15": {
   "level": "TLC enumerates the configuration space itself (every depth-one composition of the step algebra x weights x population sizes) and checks PopSizeInvariant on the length semantics of GESteps, where a parallel step may split k in ANY way (the as-coded compute_ranges variant must fail); the same TLC-enumerated compositions plus sampled deeper nestings are instantiated with the real combinators and probe-wrapped real leaves on list / Population / one-shot-iterator inputs, whole GP runs and every initialiser (injected populations of every length) are recorded, and TLC validates every length event.",
   "ref": "DESIGN.md section 4 C15",
-  "note": "quick covers a rotating third of the depth-one space per seed; nesting depth <= 3",
+  "note": "quick covers a rotating third of the depth-one space per seed; nesting depth <= 3; runs started through SimpleGP included",
   "technique": "TLA+ model checking (TLC) of the step-length algebra + replay of TLC-enumerated compositions into the real step objects with trace validation",
  },
  "C16": {
   "level": "TLC explores every population of <= 3 (4) individuals over 3 fitness values, both directions, every k and every order among equals, and checks EliteOK (exactly k, sub-bag, nobody excluded strictly better) - a worst-first variant must fail; the real ElitismStep is applied for every k to populations with ties and duplicates in three input forms and GP runs record per-generation fitness with the observed elite slots; TLC validates EliteOK and BestMonotone on every event.",
   "ref": "DESIGN.md section 4 C16",
-  "note": "monotonicity antecedent = slot reserved and whole generation shown to the elitism step",
+  "note": "monotonicity antecedent = at least one elite slot reserved (for an exclusive parallel step: and the whole generation shown to the elitism step); SimpleGP runs take the slots from the caller's configuration",
   "technique": "TLA+ model checking (TLC) of top-k selection + trace validation of real elitism applications and GP runs",
  },
  "C17": {
@@ -76,7 +76,7 @@ TEXT = {
  "C04": {
   "level": "TLC proves on the model that exact-minimum-depth filtering gives Derive(grow) = Lang, Derive(full|pigrow) inside Lang for 250 grammars x limits (the as-coded list deviation must break GrowExact); the real create_genotype is driven through ALL sequences of random decisions (thousands of programs) and TLC compares the resulting SETS with Lang / FullLang computed from the declared grammar alone.",
   "ref": "DESIGN.md section 4 C04",
-  "note": "finite-choice grammars, capped decision trees; default depth mode",
+  "note": "finite-choice grammars, capped decision trees (an enumeration over budget is reported as an incomplete set); default depth mode; histories: re-declared refinements, concrete-only extraction, representations lent to initialisers",
   "technique": "TLA+ model checking (TLC) + exhaustive scripted-randomness enumeration with set comparison inside TLC",
  },
  "C10": {
